@@ -471,6 +471,9 @@ static void run_c07(long cases) {
         // 3 file response (sendfile), 4 fixed response + the blocked peer sends the first part of its next request during the stall
         int variant = (int)((n * g_opts.nshards + g_opts.shard) % 7);   // 6 like 4, but the partial request and the start of reading reach a worker that is away: ONE event, readable and writable, and nothing new to write   // 5 streamed response resumed by a later flush of its own handler (the client starts reading while the handler is still flushing)
         double stall = 0.2 + r.below(10) * 0.1;
+        // now and then a long stall: a connection whose window stays closed for many seconds is still a connection, and what is pending for it
+        // is delivered when it reads again (one scenario per quick run, one in twenty otherwise)
+        if ((n == 0 && g_opts.shard == 1) || (n > 0 && (n * g_opts.nshards + g_opts.shard) % 20 == 7)) { stall = 8.5 + r.below(4); count("long_stalls"); }
         std::string wt = Json().num("i", idx).str("phase", "c07").num("big_bytes", (long long)big).num("extra_writes", extra).num("others", nOthers).num("when", when).num("stall_s_x10", (long long)(stall * 10)).done();
         set_case(idx, wt);
         double lf = lv::load_factor();
